@@ -940,15 +940,26 @@ class C17(Property):
         t = case['t']
         toks = [t]
         if t == 'oto':
-            obs = self._obs_for(case) if any(op[0] == 'popitem' for op in case['ops']) else []
+            obs = self._obs_for(case) if any(op[0] == 'popitem' for op in case['ops']) else None
             for n, op in enumerate(case['ops']):
                 o = op[0]
                 if o in ('new', 'uniq'):
                     c = 'N' if o == 'new' else 'Q'
                     if o == 'new' and op[1] == 'reg' and op[3]:
                         # OneToOne(other, **kw) with colliding values: WHICH key of a value survives depends on
-                        # the iteration order of `other`, which the statement leaves open -> oracle only
-                        return None
+                        # the iteration order of `other`, which the statement leaves open: the model is told which
+                        # items the implementation's new instance holds and accepts any admissible outcome
+                        # (`OTO.ofPairsAs`, theorem oto_ctor_any_spec), falling back to its own order otherwise
+                        if obs is None:
+                            obs = self._obs_for(case)
+                        hint = None
+                        if n < len(obs) and 'exc' not in obs[n] and obs[n].get('dump'):
+                            fw = obs[n]['dump'][-1][0]
+                            if all(isinstance(a, int) and isinstance(b, int) for a, b in fw):
+                                hint = fw
+                        if hint is not None:
+                            toks.append('N/%s/%s/%s' % (self._argtok(op[1], op[2]), self._ps(op[3]), self._ps(hint)))
+                            continue
                     # the argument travels RAW (kind + pairs as written): de-duplication of dict / keyword
                     # arguments and the one pass over an iterator are the model's business (Args.lean)
                     toks.append('%s/%s/%s' % (c, self._argtok(op[1], op[2]), self._ps(op[3])))
@@ -972,7 +983,7 @@ class C17(Property):
                 elif o == 'popitem':
                     # which pair goes is the implementation's choice (the statement does not fix it): the model
                     # accepts any pair the instance holds, and falls back to dict's LIFO otherwise
-                    r = obs[n].get('ret') if n < len(obs) and 'exc' not in obs[n] else None
+                    r = obs[n].get('ret') if obs is not None and n < len(obs) and 'exc' not in obs[n] else None
                     hint = '/%d:%d' % tuple(r) if isinstance(r, list) and all(isinstance(z, int) for z in r) else ''
                     toks.append('I/%d/%s%s' % (op[1], op[2], hint))
                 elif o == 'clear':
